@@ -49,7 +49,8 @@ const Statement * LETNStatement::doit(Context& ctx) const
     /* values MUST be of the same type */
     if (_typ != ptd.type())
       throw RuntimeError(EXC_RT_TYPE_MISMATCH_S, ptd.typeName().c_str());
-    ptd.swap(std::move(Value(_typ)));
+    /* the element stays owned by its table (LVALUE), as after an assignment */
+    ptd.swap(std::move(Value(_typ).to_lvalue(true)));
     return _next;
   }
 }
